@@ -706,6 +706,8 @@ def gen_scenario(rng, mode=None, prefix=None):
     mode = mode or rng.choice(X.MODES)
     if prefix is None:
         prefix = "" if mode == "none" else X.rand_prefix(rng) or "/radicale"
+        while mode.startswith("proxy") and prefix != prefix.strip():
+            prefix = X.rand_prefix(rng) or "/radicale"      # HTTP trims white space around a header value (X-Script-Name)
     while True:
         user = X.rand_component(rng, 5)
         if ":" in user or not X.latin1(user) and False:
@@ -792,69 +794,94 @@ def spellings(rng, path):
     return out
 
 
+SD_CONF = {"auth": {"type": "none"}, "rights": {"type": "vlib.x_c18_rights"}, "web": {"type": "none"}}
+
+
+def sd_front(srv, base):
+    from vlib.impl import event
+    fr = X.Front(srv, "proxy-strip" if base else "none", base)
+    fr.send("MKCOL", fr.client_url("/u/"))
+    fr.send("MKCALENDAR", fr.client_url("/u/cal/"))
+    return fr
+
+
+def sd_check_url(srv, fr, base, url, path, uid):
+    """One URL `url` that should denote the storage path `path` (below /u/cal/): request line, multiget, Destination.
+    Returns None or (what, replay dict)."""
+    from vlib.impl import event
+    rep = dict(monitor="same_decoding", kind="url", base=base, url=url, expected=path)
+    st = fr.send("PUT", url, data=event(uid))[0]
+    where1 = find_uid(srv.folder, uid)
+    if st != 201 or where1 != [path]:
+        return "request line %r does not reach %r" % (url, path), dict(rep, status=st, found=where1)
+    st, h, b = fr.send("REPORT", fr.client_url("/u/cal/"), data=X.multiget_body([url.split("#")[0]]))
+    rs = X.response_status_map(b) if st == 207 else []
+    if [r[1] for r in rs] != [200] or ("UID:" + uid) not in (rs[0][2] or ""):
+        return ("multiget href %r does not select the item the request line %r created" % (url, url),
+                dict(rep, status=st, responses=rs[:3]))
+    src = fr.client_url("/u/cal/src.ics")
+    st = fr.send("MOVE", url.split("#")[0].split("?")[0], headers={"Destination": "http://%s%s" % (X.HOSTNAME, src)})[0]
+    if st != 201:
+        return "MOVE away from %r" % url, dict(rep, status=st)
+    st = fr.send("MOVE", src, headers={"Destination": "http://%s%s" % (X.HOSTNAME, url)})[0]
+    where2 = find_uid(srv.folder, uid)
+    if st != 201 or where2 != [path]:
+        return ("Destination %r reaches %r, the same URL as request line reaches %r" % (url, where2, path),
+                dict(rep, status=st, found=where2))
+    fr.send("DELETE", fr.client_url(path))
+    return None
+
+
+def sd_check_outside(srv, fr, base, u, uid):
+    """A URL `u` that is not below the base prefix must be refused as Destination and skipped as multiget href."""
+    from vlib.impl import event
+    rep = dict(monitor="same_decoding", kind="outside", base=base, url=u)
+    src = fr.client_url("/u/cal/src.ics")
+    fr.send("PUT", src, data=event(uid))
+    st = fr.send("MOVE", src, headers={"Destination": "http://%s%s" % (X.HOSTNAME, u)})[0]
+    if st in (201, 204) or st >= 500:
+        return ("Destination %r is outside the base prefix %r but is not refused: status %d, item now at %r" % (
+            u, base, st, find_uid(srv.folder, uid)), dict(rep, status=st, found=find_uid(srv.folder, uid)))
+    st, h, b = fr.send("REPORT", fr.client_url("/u/cal/"), data=X.multiget_body([u]))
+    rs = X.response_status_map(b) if st == 207 else []
+    if rs or st >= 500:
+        return "multiget href %r is outside the base prefix %r but was answered (status %d)" % (u, base, st), dict(rep, responses=rs[:3])
+    fr.send("DELETE", src)
+    return None
+
+
 def mon_same_decoding(ctx):
     """`decodes it the same way`, stated on the implementation: a URL used as request target of PUT, as multiget href
     and as MOVE Destination names the same file; a URL that is not below the base prefix names nothing."""
-    from vlib.impl import Server, event
     rng = ctx.rng
     n = ctx.n(240, 6000)
-    conf = {"auth": {"type": "none"}, "rights": {"type": "vlib.x_c18_rights"}, "web": {"type": "none"}}
     checked = 0
-    with X.fast_server(conf) as srv:
+    with X.fast_server(SD_CONF) as srv:
         for base in ["", "/radicale", "/r", "/my app"]:
-            fr = X.Front(srv, "proxy-strip" if base else "none", base)
-            assert fr.send("MKCOL", fr.client_url("/u/"))[0] in (201, 405)
-            assert fr.send("MKCALENDAR", fr.client_url("/u/cal/"))[0] in (201, 405, 409)
+            fr = sd_front(srv, base)
+            if base == "/r":
+                for top in ("/2u/", "/xu/"):
+                    srv.mkcol(top), srv.mkcalendar(top + "cal/")
             for k in range(n // 4):
                 name = X.rand_component(rng, 8)
                 path = "/u/cal/" + name
-                uid = "sd%d" % checked
                 for url in rng.sample(spellings(rng, base + path), 3):
                     checked += 1
-                    st = fr.send("PUT", url, data=event(uid))[0]
-                    where1 = find_uid(srv.folder, uid)
-                    if st != 201 or where1 != [path]:
-                        ctx.violation("request line %r does not reach %r" % (url, path),
-                                      dict(monitor="same_decoding", base=base, url=url, expected=path, status=st, found=where1))
+                    bad = sd_check_url(srv, fr, base, url, path, "sd%d" % checked)
+                    if bad:
+                        ctx.violation(bad[0], bad[1])
                         return
-                    st, h, b = fr.send("REPORT", fr.client_url("/u/cal/"), data=X.multiget_body([url.split("#")[0]]))
-                    rs = X.response_status_map(b) if st == 207 else []
-                    if [r[1] for r in rs] != [200] or ("UID:" + uid) not in (rs[0][2] or ""):
-                        ctx.violation("multiget href %r does not select the item the request line %r created" % (url, url),
-                                      dict(monitor="same_decoding", base=base, url=url, expected=path, status=st, responses=rs[:3]))
-                        return
-                    assert fr.send("MOVE", url.split("#")[0].split("?")[0],
-                                   headers={"Destination": "http://%s%s" % (X.HOSTNAME, fr.client_url("/u/cal/src.ics"))})[0] == 201
-                    st = fr.send("MOVE", fr.client_url("/u/cal/src.ics"), headers={"Destination": "http://%s%s" % (X.HOSTNAME, url)})[0]
-                    where2 = find_uid(srv.folder, uid)
-                    if st != 201 or where2 != [path]:
-                        ctx.violation("Destination %r reaches %r, the same URL as request line reaches %r" % (url, where2, path),
-                                      dict(monitor="same_decoding", base=base, url=url, expected=path, status=st, found=where2))
-                        return
-                    fr.send("DELETE", fr.client_url(path))
-                # a sibling of the prefix is not below the prefix
                 if base:
-                    sib = base + rng.choice(["2", "x", "-", "."])
-                    url = urllib.parse.quote(sib + path)
-                    fr.send("PUT", fr.client_url("/u/cal/src.ics"), data=event(uid))
-                    if base == "/r" and k == 0:
-                        fr.send("MKCOL", fr.client_url("/u/"))
-                        srv.mkcol("/2u/"), srv.mkcalendar("/2u/cal/"), srv.mkcol("/xu/"), srv.mkcalendar("/xu/cal/")
-                    url2 = urllib.parse.quote(base + rng.choice(["2", "x"]) + "u/cal/" + name) if base == "/r" else url
-                    for u in (url, url2):
-                        st = fr.send("MOVE", fr.client_url("/u/cal/src.ics"), headers={"Destination": "http://%s%s" % (X.HOSTNAME, u)})[0]
-                        if st in (201, 204):
-                            ctx.violation("Destination %r is outside the base prefix %r but the item was moved to %r" % (
-                                u, base, find_uid(srv.folder, uid)),
-                                dict(monitor="same_decoding", base=base, destination=u, status=st, found=find_uid(srv.folder, uid)))
+                    # a sibling of the prefix is not below the prefix
+                    outs = [urllib.parse.quote(base + rng.choice(["2", "x", "-", "."]) + path)]
+                    if base == "/r":
+                        outs.append(urllib.parse.quote(base + rng.choice(["2", "x"]) + "u/cal/" + name))
+                    for u in outs:
+                        checked += 1
+                        bad = sd_check_outside(srv, fr, base, u, "so%d" % checked)
+                        if bad:
+                            ctx.violation(bad[0], bad[1])
                             return
-                        st, h, b = fr.send("REPORT", fr.client_url("/u/cal/"), data=X.multiget_body([u]))
-                        rs = X.response_status_map(b) if st == 207 else []
-                        if rs:
-                            ctx.violation("multiget href %r is outside the base prefix %r but was answered" % (u, base),
-                                          dict(monitor="same_decoding", base=base, href=u, responses=rs[:3]))
-                            return
-                    fr.send("DELETE", fr.client_url("/u/cal/src.ics"))
     ctx.extra["monitor_same_decoding_urls"] = checked
     ctx.count("monitor:same_decoding", checked)
 
@@ -901,7 +928,25 @@ def monitors(ctx):
 
 def replay(ctx, path):
     data = json.load(open(path))
-    sc = data.get("replay", {}).get("scenario")
+    rep = data.get("replay", {})
+    if rep.get("function"):
+        got = X.get_environ_only(rep["target"])
+        print("get_environ(%r) -> PATH_INFO %r, expected %r" % (rep["target"], got, rep["expected"]))
+        return 0 if got == rep["expected"] else 1
+    if rep.get("monitor") == "same_decoding":
+        with X.fast_server(SD_CONF) as srv:
+            fr = sd_front(srv, rep["base"])
+            if rep["base"] == "/r":
+                for top in ("/2u/", "/xu/"):
+                    srv.mkcol(top), srv.mkcalendar(top + "cal/")
+            if rep["kind"] == "url":
+                bad = sd_check_url(srv, fr, rep["base"], rep["url"], rep["expected"], "replay")
+            else:
+                bad = sd_check_outside(srv, fr, rep["base"], rep["url"], "replay")
+            print("requests:", fr.log)
+        print("passes against " + core.REPO if not bad else "FAILS: %s\n %r" % bad)
+        return 1 if bad else 0
+    sc = rep.get("scenario")
     if not sc:
         print(json.dumps(data, indent=1)[:4000])
         return 0
